@@ -148,7 +148,7 @@ DsSelect(nd, o2) ==
     IF nd.disp = 0
     THEN IF nd.dflt = 0 THEN Fail("Switch", {}, "") ELSE [ok |-> TRUE, n |-> nd.dflt, dep |-> FALSE]
     ELSE LET dv == Eval(nd.disp, o2) IN
-         IF ~dv.ok THEN (IF nd.dflt = 0 THEN dv ELSE [ok |-> TRUE, n |-> nd.dflt, dep |-> FALSE])
+         IF ~dv.ok THEN (IF nd.dflt = 0 \/ dv.cls = "IllTyped" THEN dv ELSE [ok |-> TRUE, n |-> nd.dflt, dep |-> FALSE])
          ELSE IF ~Hashable(dv.v) THEN IllTyped
          ELSE LET hit == TabFind(DsTable(nd), dv.v) IN
               IF hit # 0 THEN [ok |-> TRUE, n |-> hit, dep |-> TRUE]
@@ -197,7 +197,7 @@ Eval(n, o) ==
                  IF tgt = 0 THEN UserErr("bindfn") ELSE Eval(tgt, o)
       [] nd.k = "switch" ->
             LET dv == Eval(nd.d, o) IN
-            IF ~dv.ok THEN (IF nd.dflt = 0 THEN dv ELSE Eval(nd.dflt, o))
+            IF ~dv.ok THEN (IF nd.dflt = 0 \/ dv.cls = "IllTyped" THEN dv ELSE Eval(nd.dflt, o))
             ELSE IF ~Hashable(dv.v) THEN IllTyped
             ELSE LET hit == TabFind(nd.lk, dv.v) IN
                  IF hit # 0 THEN Eval(hit, o)
@@ -293,7 +293,7 @@ Validate(n, o) ==
                       IF tgt = 0 THEN UserErr("bindfn") ELSE Validate(tgt, o)
       [] nd.k = "switch" ->
             LET dv == Eval(nd.d, o) IN
-            IF ~dv.ok THEN (IF nd.dflt = 0 THEN dv ELSE Validate(nd.dflt, o))
+            IF ~dv.ok THEN (IF nd.dflt = 0 \/ dv.cls = "IllTyped" THEN dv ELSE Validate(nd.dflt, o))
             ELSE IF ~Hashable(dv.v) THEN IllTyped
             ELSE LET hit == TabFind(nd.lk, dv.v) IN
                  IF hit # 0 THEN Validate(hit, o)
@@ -371,7 +371,7 @@ KeysOf(n, o) ==
                       IF tgt = 0 THEN UserErr("bindfn") ELSE UnionK(<<ks, KeysOf(tgt, o)>>)
       [] nd.k = "switch" ->
             LET dv == Eval(nd.d, o) IN
-            IF ~dv.ok THEN (IF nd.dflt = 0 THEN dv ELSE KeysOf(nd.dflt, o))
+            IF ~dv.ok THEN (IF nd.dflt = 0 \/ dv.cls = "IllTyped" THEN dv ELSE KeysOf(nd.dflt, o))
             ELSE IF ~Hashable(dv.v) THEN IllTyped
             ELSE LET hit == TabFind(nd.lk, dv.v)
                      tgt == IF hit # 0 THEN hit ELSE nd.dflt IN
@@ -453,7 +453,7 @@ Explain(n, o) ==
                       IF tgt = 0 THEN UserErr("bindfn") ELSE UnionK(<<ks, Explain(tgt, o)>>)
       [] nd.k = "switch" ->
             LET dv == Eval(nd.d, o) IN
-            IF ~dv.ok THEN (IF nd.dflt = 0 THEN Insufficient ELSE Explain(nd.dflt, o))
+            IF ~dv.ok THEN (IF dv.cls = "IllTyped" THEN dv ELSE IF nd.dflt = 0 THEN Insufficient ELSE Explain(nd.dflt, o))
             ELSE IF ~Hashable(dv.v) THEN IllTyped
             ELSE LET hit == TabFind(nd.lk, dv.v)
                      tgt == IF hit # 0 THEN hit ELSE nd.dflt IN
